@@ -444,8 +444,22 @@ def gpsd_session(col, binpath, vmon, rng, tag, scratch):
             raise Inconclusive("Airplanes table not on screen")
         col.count("rows_compared", len(sim1["rows"]))
         ok = rows_equal(col, rows, sim1, "", inp, "gpsd_first_fix")
+        # every other session the operator has panned the map when the receiver moves: the view is
+        # the operator's, the receiver position (what distances are measured from) is still gpsd's
+        custom = idx % 2 == 1
+        if custom:
+            sess.key("F1")
+            sess.p.pump(0.3)
+            for k in ("Up", "Up", "Left"):
+                sess.key(k)
+                sess.p.pump(0.1)
+            sess.key("F3")
+            sess.settle(0.4)
+            inp["custom_view_when_the_second_fix_arrives"] = True
         g.lat, g.lon = p2
-        if not wait_title(p2, 15):
+        if custom:
+            sess.p.pump(4.0)  # the title shows the operator's centre now; reports come every 0.2 s
+        elif not wait_title(p2, 15):
             col.add("C18", "C18|gpsd_fix_not_adopted|second", f"gpsd reports {p2} for 15 s (before: {p1}); the title still shows {title_pos()}", inp)
             return
         sess.srv.release("b2")
@@ -453,8 +467,18 @@ def gpsd_session(col, binpath, vmon, rng, tag, scratch):
         if rows is None:
             raise Inconclusive("Airplanes table not on screen")
         col.count("rows_compared", len(sim2["rows"]))
+        if custom:
+            # reset: the title must show the second fix (then it had arrived, and the rows count)
+            sess.key("F1")
+            sess.p.pump(0.3)
+            sess.key("Enter")
+            if not wait_title(p2, 15):
+                col.add("C18", "C18|gpsd_fix_not_adopted|second", f"gpsd reports {p2} for 20 s (before: {p1}); after a reset of the view the title still shows {title_pos()}", inp)
+                return
+            sess.key("F3")
+            sess.settle(0.4)
         if ok:
-            rows_equal(col, rows, sim2, "", inp, "gpsd_second_fix")
+            rows_equal(col, rows, sim2, "", inp, "gpsd_second_fix" + ("|custom_view" if custom else ""))
         # the map is centred on the fix: the aircraft due north / east of it sit on the axes
         sess.key("F1")
         sess.settle(0.6)
@@ -552,6 +576,175 @@ def crowd_expiry_session(col, binpath, rng, tag, scratch):
         col.count("rows_compared", keep)
         if got != want:
             col.add("C18", "C18|airplanes_tab_differs_from_tracker|crowd_expiry|set", f"the title counts {keep} aircraft (25 of 30 expired while the selection was on the last row); rows shown: {got}, still heard: {want}", inp)
+    except Inconclusive:
+        if sess.p.alive():
+            raise
+        col.add("C17", f"C17|terminated_before_quit|{sess.panic_location()}", "radar died during a C18 session", inp)
+        col.add("C18", f"C18|radar_died_while_showing_data|{sess.panic_location()}", "radar terminated during a session: nothing is shown any more", inp)
+    finally:
+        sess.close()
+
+
+def reconnect_session(col, binpath, vmon, rng, tag, scratch):
+    """--retry-tcp: the server goes away and comes back. What is on screen after the reconnect is
+    still the tracker's data: first the same rows as before (nothing new has arrived), then the
+    rows of both connections together."""
+    lat, lon = rng.choice([(52.0, 4.0), (-33.9, 151.2), (10.0, -60.0)])
+    lines1 = traffic(rng, rng.choice([4, 9]), lat, lon) + [sentinel_line(0)]
+    lines2 = traffic(rng, rng.choice([1, 3]), lat, lon) + lines1[: len(lines1) // 3] + [sentinel_line(1)]
+    sim1 = feedsim(vmon, lines1, lat, lon, scratch)
+    sim2 = feedsim(vmon, lines1 + lines2, lat, lon, scratch)
+    away = rng.choice([0.2, 1.5, 4.0])
+    plan = [("send", b"".join(lines1)), ("mark", "feed_done"), ("wait_for", "drop"), ("close",), ("sleep", away), ("accept", 30.0), ("mark", "back"), ("wait_for", "b2"), ("send", b"".join(lines2)), ("mark", "feed2_done"), ("sleep", 90)]
+    opts = ["--filter-time", "100000", "--retry-tcp"]
+    where = rng.choice(["F3", "F1", "F4"])  # the tab that is open while the server is away
+    sess = session.RadarSession(binpath, plan, lat=lat, lon=lon, opts=opts, rows=60, cols=200, scratch=scratch)
+    inp = {"scenario": "reconnect", "receiver": [lat, lon], "options": opts, "server_away_s": away, "tab_during_outage": where, "lines": [l.decode() for l in lines1], "tag": tag}
+    try:
+        sess.wait_connected()
+        rows = wait_rows(sess, sim1["len"], sentinel=SENTINELS[0])
+        if rows is None:
+            raise Inconclusive("Airplanes table not on screen")
+        col.count("reconnect_sessions")
+        col.cls("reconnect|" + where)
+        col.count("rows_compared", len(sim1["rows"]))
+        ok = rows_equal(col, rows, sim1, "", inp, "before_disconnect")
+        sess.key(where)
+        sess.p.pump(0.3)
+        sess.srv.release("drop")
+        end = time.monotonic() + 45
+        while time.monotonic() < end and not sess.srv.marked("back"):
+            sess.p.pump(0.1)
+            if not sess.p.alive():
+                raise Inconclusive("radar gone")
+        if not sess.srv.marked("back"):
+            raise Inconclusive("radar did not reconnect")
+        sess.p.pump(1.0)
+        # nothing new has been sent: the table is the one from before
+        rows = None
+        for _ in range(3):
+            sess.key("F3")
+            sess.settle(0.4, 5.0)
+            rows = sess.airplanes_rows()
+            if rows is not None:
+                break
+        if rows is None:
+            if sess.p.alive() and sess.ui_present():
+                col.add("C18", "C18|airplanes_tab_not_drawn|after_reconnect", f"after the reconnect the Airplanes tab is selected and the frame of the UI is on screen, but the table of the {sim1['len']} tracked aircraft is not (its header line is missing)", inp)
+                return
+            if sess.p.alive():
+                col.add("C18", "C18|screen_not_restored_after_reconnect", "after the reconnect nothing of the UI is on screen although radar is running and keys were pressed", inp)
+                return
+            raise Inconclusive("radar gone")
+        col.count("rows_compared", len(sim1["rows"]))
+        if ok:
+            ok = rows_equal(col, rows, sim1, "", inp, "after_reconnect_before_new_data")
+        tc = sess.tab_title_count()
+        if tc != sim1["len"]:
+            col.add("C18", "C18|tab_title_count|after_reconnect", f"tab title says {tc} aircraft after the reconnect, the tracker holds {sim1['len']}", inp)
+        sess.srv.release("b2")
+        rows = wait_rows(sess, sim2["len"], sentinel=SENTINELS[1])
+        if rows is None:
+            raise Inconclusive("Airplanes table not on screen")
+        col.count("rows_compared", len(sim2["rows"]))
+        if ok:
+            rows_equal(col, rows, sim2, "", inp, "after_reconnect_with_new_data")
+        sess.key("F4")
+        sess.settle(0.4, 5.0)
+        tot = None
+        for l in sess.p.screen.text():
+            m = re.search(r"Total Airplanes\s+All Time\s+(\d+)", l)
+            if m:
+                tot = int(m.group(1))
+        col.count("stats_compared")
+        if tot is not None and tot != sim2["total_added"]:
+            col.add("C18", "C18|stats_total_airplanes|reconnect", f"Stats shows Total Airplanes {tot}; aircraft were newly added {sim2['total_added']} times over both connections", inp)
+    except Inconclusive:
+        if sess.p.alive():
+            raise
+        col.add("C17", f"C17|terminated_before_quit|{sess.panic_location()}", "radar died during a C18 session", inp)
+        col.add("C18", f"C18|radar_died_while_showing_data|{sess.panic_location()}", "radar terminated during a session: nothing is shown any more", inp)
+    finally:
+        sess.close()
+
+
+def label_session(col, binpath, rng, tag, scratch):
+    """What is drawn next to an aircraft is placed by the same transformation as the aircraft: every
+    call-sign label on the map sits right above the dot of its aircraft, an aircraft that is not on
+    the map has no label on it - at the start, zoomed in, panned and after reset."""
+    idx = int(tag.split("#")[1])
+    lat, lon = [(52.0, 4.0), (-33.9, 151.2), (47.0, 8.0), (10.0, -60.0)][idx % 4]
+    craft = [("NEARA", 45, 60), ("NEARB", 135, 60), ("NEARC", 225, 60), ("NEARD", 315, 60), ("MIDA", 20, 110), ("MIDB", 200, 110),
+             ("FARN", 0, 300), ("FARS", 180, 300), ("FARE", 90, 450), ("FARW", 270, 450), ("FARX", 10, 250), ("FARY", 170, 380)]
+    lines = []
+    for k, (cs, brg, dist) in enumerate(craft):
+        addr = 0x730000 + k
+        la, lo = enc.destination(lat, lon, brg, dist)
+        lines.append(enc.line(enc.long_frame(17, 5, addr, enc.me_ident(4, 0, cs))))
+        lines.append(enc.line(enc.long_frame(17, 5, addr, enc.me_airpos(11, 30000, la, lo, False))))
+        lines.append(enc.line(enc.long_frame(17, 5, addr, enc.me_airpos(11, 30000, la, lo, True))))
+    plan = [("send", b"".join(lines)), ("mark", "feed_done"), ("sleep", 90)]
+    opts = ["--disable-lat-long", "--disable-track", "--filter-time", "100000"] + (["--disable-heading"] if idx % 2 == 0 else [])
+    t_rows, t_cols = [(60, 200), (62, 151), (60, 200), (70, 120)][idx % 4]
+    sess = session.RadarSession(binpath, plan, lat=lat, lon=lon, opts=opts, rows=t_rows, cols=t_cols, scratch=scratch)
+    inp = {"scenario": "labels", "receiver": [lat, lon], "terminal": [t_rows, t_cols], "options": opts, "aircraft": [list(c) for c in craft], "tag": tag}
+    names = [c[0] for c in craft]
+    try:
+        sess.wait_connected()
+        rows = wait_rows(sess, len(craft))
+        if rows is None or len([r for r in rows if r["lat"]]) < len(craft):
+            raise Inconclusive("not all aircraft have a position")
+        sess.key("F1")
+        sess.settle(0.6)
+        txt = sess.p.screen.text()
+        top = next((i for i, l in enumerate(txt) if "┌Map" in l), None)
+        if top is None:
+            raise Inconclusive("Map tab not on screen")
+        bottom = next((i for i in range(top + 1, len(txt)) if "└" in txt[i]), len(txt) - 1)
+        left, right = txt[top].index("┌"), txt[top].rindex("┐")
+        col.count("label_sessions")
+        col.cls("map|labels")
+
+        def examine(stage):
+            cs = sess.p.screen.cells
+            dots = [(r, c) for r in range(top + 1, bottom) for c in range(left + 1, right) if cs[r][c][1] == 4 and BRAILLE(cs[r][c][0])]
+            labels = {}
+            for r in range(top + 1, bottom):
+                line = "".join(cs[r][c][0] for c in range(left + 1, right))
+                for nm in names:
+                    j = line.find(nm)
+                    if j >= 0:
+                        labels[nm] = (r, left + 1 + j)
+            col.count("labels_read", len(labels))
+            col.count("label_stages")
+            orphan = []
+            for nm, (r, c) in labels.items():
+                below = [(dr, dc) for (dr, dc) in dots if 0 <= dr - r <= 3 and abs(dc - c) <= 1]
+                if not below and r + 3 < bottom:
+                    orphan.append(f"{nm} at row {r - top}, column {c - left}")
+            bare = []
+            for (dr, dc) in dots:
+                if dr - 3 <= top + 1 or dc + 8 >= right:
+                    continue
+                if not any(0 <= dr - r <= 3 and abs(dc - c) <= 1 for (r, c) in labels.values()):
+                    bare.append(f"dot at row {dr - top}, column {dc - left}")
+            if orphan:
+                col.add("C18", f"C18|map_label_without_aircraft|{stage}", f"{stage}: call-sign labels on the map with no aircraft dot in the three rows below them (the canvas has {bottom - top - 1} rows): {orphan[:5]}; dots at {[(r - top, c - left) for r, c in dots][:12]}", dict(inp, stage=stage))
+            if bare and not orphan:
+                col.add("C18", f"C18|map_aircraft_without_label|{stage}", f"{stage}: aircraft dots with room above them but no call-sign label there: {bare[:5]}; labels at { {k: (v[0] - top, v[1] - left) for k, v in labels.items()} }", dict(inp, stage=stage))
+            return len(labels), len(dots)
+
+        n_lab, n_dot = examine("start")
+        if n_lab < 4 or n_dot < 4:
+            raise Inconclusive(f"only {n_lab} labels / {n_dot} dots on the first picture")
+        for stage, keys in (("zoom_in_2", ["+", "+"]), ("zoom_in_4", ["+", "+"]), ("pan_up", ["Up"] * 12), ("pan_left", ["Left"] * 6), ("zoom_out", ["-"] * 3), ("reset", ["Enter"])):
+            for k in keys:
+                sess.key(k)
+                sess.p.pump(0.03)
+            sess.settle(0.5)
+            if not sess.p.alive():
+                raise Inconclusive("radar gone")
+            examine(stage)
     except Inconclusive:
         if sess.p.alive():
             raise
@@ -1021,6 +1214,10 @@ def main(a, lcol, col, run_all, scratch, START):
     # long sessions first (they take the longest): 4-digit counts in the quick tier, 5-digit in thorough
     for i, n_msgs in enumerate([1003 + 7 * (a.seed % 50), 10_007 + 11 * (a.seed % 50)] if thorough else [1003 + 7 * (a.seed % 50)]):
         jobs.insert(0, (f"long#{i}", lambda rng, i=i, n_msgs=n_msgs: long_count_session(lcol, a.bin, a.vmon, rng, f"long#{i}", scratch, n_msgs)))
+    for i in range(40 if thorough else 4):
+        jobs.append((f"labels#{i}", lambda rng, i=i: label_session(lcol, a.bin, rng, f"labels#{i}", scratch)))
+    for i in range(24 if thorough else 3):
+        jobs.append((f"reconn#{i}", lambda rng, i=i: reconnect_session(lcol, a.bin, a.vmon, rng, f"reconn#{i}", scratch)))
     for i in range(16 if thorough else 2):
         jobs.insert(0, (f"relay#{i}", lambda rng, i=i: stats_relay_session(lcol, a.bin, rng, f"relay#{i}", scratch)))
     for i in range(6 if thorough else 1):
@@ -1030,11 +1227,11 @@ def main(a, lcol, col, run_all, scratch, START):
     for i in range(12 if thorough else 2):
         jobs.insert(0, (f"crowd#{i}", lambda rng, i=i: crowd_session(lcol, a.bin, a.vmon, rng, f"crowd#{i}", scratch)))
     run_all(jobs)
-    ev = col.counters.get("rows_compared", 0) + col.counters.get("stats_compared", 0) + col.counters.get("view_control_sequences", 0) + col.counters.get("map_sessions", 0) * 8 + col.counters.get("expiry_sessions", 0)
-    distinct = col.counters.get("data_sessions", 0) + col.counters.get("long_count_sessions", 0) + col.counters.get("crowd_sessions", 0) + col.counters.get("crowd_expiry_sessions", 0) + col.counters.get("gpsd_sessions", 0) + col.counters.get("map_sessions", 0) + col.counters.get("expiry_sessions", 0) + col.counters.get("relay_sessions", 0)
+    ev = col.counters.get("rows_compared", 0) + col.counters.get("stats_compared", 0) + col.counters.get("view_control_sequences", 0) + col.counters.get("map_sessions", 0) * 8 + col.counters.get("expiry_sessions", 0) + col.counters.get("labels_read", 0) + col.counters.get("relay_sessions", 0)
+    distinct = col.counters.get("data_sessions", 0) + col.counters.get("long_count_sessions", 0) + col.counters.get("crowd_sessions", 0) + col.counters.get("crowd_expiry_sessions", 0) + col.counters.get("gpsd_sessions", 0) + col.counters.get("map_sessions", 0) + col.counters.get("expiry_sessions", 0) + col.counters.get("relay_sessions", 0) + col.counters.get("reconnect_sessions", 0) + col.counters.get("label_sessions", 0)
     col.sample({"data_session": "20 aircraft in four quadrants with identification/velocity/position (some one parity only); all 10 columns of every Airplanes row == library run on the same lines; tab title; Stats totals; 1-40 view-control events then rows unchanged"})
     col.sample({"map_session": "8 aircraft due N/E/S/W at d and 2d km; blue braille cells relative to the axis crossing: direction, 2:1 proportion, E/W and N/S symmetry, receiver at the canvas centre, the same picture scaled after three zoom-outs and after five zoom-ins, reset restores the cells"})
     return vlib.finish(col, "C18", a.tier, a.seed, "exploration",
-        "radar on a 200x60 pseudo-terminal fed by a scripted server: (a) data sessions: the reconstructed Airplanes table (address, callsign, lat, lon, heading, altitude, rate, speed, distance, message count; blanks without a position) == rows computed by the repository's library on the same recorded lines (vmon feedsim), tab title count, Stats 'Total'/'Most'; then 1-40 zoom/pan/reset/drag/scroll events and the table again; (b) expiry sessions (--filter-time 2): aircraft expire and return, Total = number of (re-)adds, Most = largest simultaneous count; (b') relay sessions (--filter-time 1): 10-14 aircraft, each first heard 1 s + 3..60 ms after its predecessor, so additions and expiries share turns of the client's loop; Total = number of addresses; (c) long sessions: one aircraft heard 1003+ (quick) / 10007+ (thorough) times, Msgs column exact; (c') crowded sessions: 70-130 aircraft on a 60-row terminal, rows collected while the selection moves down through the list; (c'') gpsd sessions: the receiver position comes from a stand-in gpsd and moves once (due east / due north); title, table and map must follow the fixes; (d) map sessions: aircraft due N/E/S/W at d and 2d: direction, proportion, symmetry, centre, reset; distinct_nontrivial = sessions (each a distinct seeded feed)",
+        "radar on a 200x60 pseudo-terminal fed by a scripted server: (a) data sessions: the reconstructed Airplanes table (address, callsign, lat, lon, heading, altitude, rate, speed, distance, message count; blanks without a position) == rows computed by the repository's library on the same recorded lines (vmon feedsim), tab title count, Stats 'Total'/'Most'; then 1-40 zoom/pan/reset/drag/scroll events and the table again; (b) expiry sessions (--filter-time 2): aircraft expire and return, Total = number of (re-)adds, Most = largest simultaneous count; (b') relay sessions (--filter-time 1): 10-14 aircraft, each first heard 1 s + 3..60 ms after its predecessor, so additions and expiries share turns of the client's loop; Total = number of addresses; (b'') reconnect sessions (--retry-tcp): the server closes and comes back after 0.2-4 s while one of three tabs is open; the table right after the reconnect == the table before, then == the library on the lines of both connections; (c) long sessions: one aircraft heard 1003+ (quick) / 10007+ (thorough) times, Msgs column exact; (c') crowded sessions: 70-130 aircraft on a 60-row terminal, rows collected while the selection moves down through the list; (c'') gpsd sessions: the receiver position comes from a stand-in gpsd and moves once (due east / due north); title, table and map must follow the fixes; (d) map sessions: aircraft due N/E/S/W at d and 2d: direction, proportion, symmetry, centre, reset; (d') label sessions: twelve aircraft with call signs, six of them outside the first picture: every label on the map has its aircraft's dot in the three rows below it, every dot with room above it has a label, at the start / zoomed in / panned / zoomed out / after reset; distinct_nontrivial = sessions (each a distinct seeded feed)",
         ["screen reconstruction by a minimal VT model; aircraft dots are the blue (38;5;4) braille cells with --disable-heading", "one-cell tolerance for direction/symmetry, two cells for the 2:1 proportion"],
         a.verif, START, ev, distinct, min_evaluations=20)
